@@ -397,9 +397,16 @@ def _replay_f1(case):
     return {"reproduced": bool(bad), "detail": f"F1={f} for true={P}, pred={pred}, ε={eps}"}
 
 
+def _asym3d():
+    """an asymmetric 3-D cone whose facets have clearly different α_n (0.711, 0.716, 0.883): the gap formula must divide
+    each facet's margin by that facet's own α_n"""
+    W = np.array([[1.0, -0.8, 0.0], [0.0, 1.0, -0.2], [-0.3, 0.0, 1.0]])
+    return W / np.linalg.norm(W, axis=1, keepdims=True)
+
+
 def tasks(tier, seed):
     ts = []
-    cones = cone_set(tier, seed=seed)
+    cones = cone_set(tier, seed=seed) + [("asym3d", _asym3d())]
     for cone, W in cones:
         m = W.shape[1]
         N = 2 if (tier == "quick" or m == 3) else 3
